@@ -21,6 +21,7 @@ type c15Case struct {
 	CloseMs int      `json:"close_timeout_ms"`
 	Prefix  []string `json:"prefix"`
 	Ending  string   `json:"ending"` // peer-logout | local-logout | stop
+	AgainMs int      `json:"again_ms,omitempty"` // ending stop: Stop is called a second time this long after the first (an application retrying an unanswered Logout, or two shutdown paths), before the peer's answer
 	Answer  string   `json:"answer"` // never | before | at | after   (stop), or "answer" (local-logout)
 	HB      int      `json:"hb"`
 	DelayMs int      `json:"answer_delay_ms,omitempty"`  // local-logout: delay before the peer's answer
@@ -178,6 +179,14 @@ func c15Run(c c15Case) (string, string) {
 			if countType(outs, "5") != 1 {
 				return "stop:no-logout-sent", fmt.Sprintf("outs=[%s]", outsStr(outs))
 			}
+		}
+		if c.AgainMs > 0 && !stalled {
+			// the second Stop may send another Logout (the application asked for it) and its own error is not judged;
+			// what the first Stop promised still holds: the answer, or the close timeout, cancels the context
+			vsched.SleepUntil(t0 + time.Duration(c.AgainMs)*time.Millisecond)
+			_ = w.s.Stop()
+			vsched.Settle()
+			w.take()
 		}
 		var answerAt time.Duration = -1
 		switch c.Answer {
@@ -337,6 +346,21 @@ func runC15(R *vlib.Out) {
 				for _, a := range []string{"never", "before", "at", "after"} {
 					if !try(c15Case{Role: role, CloseMs: ct, Prefix: p, Ending: "stop", Answer: a, HB: 30}) {
 						return
+					}
+				}
+			}
+		}
+		// Stop called twice before the peer answers
+		for _, ct := range closeTimeouts {
+			if ct < 8 {
+				continue
+			}
+			for _, again := range []int{1, ct / 4} {
+				for _, a := range []string{"before", "at", "after", "never"} {
+					for _, p := range [][]string{{}, {"App"}, {"LogoutRelogon"}} {
+						if !try(c15Case{Role: role, CloseMs: ct, Prefix: p, Ending: "stop", Answer: a, HB: 30, AgainMs: again}) {
+							return
+						}
 					}
 				}
 			}
